@@ -5,7 +5,9 @@ import (
 	"encoding/json"
 	"errors"
 	"fmt"
+	"math"
 	"math/big"
+	"math/bits"
 	"net"
 	"net/netip"
 	"sort"
@@ -61,6 +63,13 @@ func toPrefixes(ns []net.IPNet) []netip.Prefix {
 	return out
 }
 
+func satInt(u uint) int {
+	if u > math.MaxInt {
+		return math.MaxInt
+	}
+	return int(u)
+}
+
 type rdef struct {
 	name string
 	mk   func(key clientip.HeaderKey) (fox.ClientIPResolver, error)
@@ -76,13 +85,15 @@ func resolvers() []rdef {
 	pl := toPrefixes(tables["privateAndLocal"])
 	priv, loop, link := toPrefixes(tables["private"]), toPrefixes(tables["loopback"]), toPrefixes(tables["linkLocal"])
 	var out []rdef
-	for n := 1; n <= 3; n++ {
+	// counts and limits are uint in the API: values beyond the int range are part of the domain (the reference
+	// saturates them at MaxInt, which no list reaches)
+	for _, n := range []uint{1, 2, 3, 1 << (bits.UintSize - 1), math.MaxUint} {
 		n := n
 		out = append(out, rdef{name: fmt.Sprintf("RightmostTrustedCount(%d)", n), rightmost: true,
 			mk: func(k clientip.HeaderKey) (fox.ClientIPResolver, error) {
-				return clientip.NewRightmostTrustedCount(k, uint(n))
+				return clientip.NewRightmostTrustedCount(k, n)
 			},
-			ref: func(es []ref.Entry) (netip.Addr, bool) { return ref.RightmostTrustedCount(es, n) }})
+			ref: func(es []ref.Entry) (netip.Addr, bool) { return ref.RightmostTrustedCount(es, satInt(n)) }})
 	}
 	for mask := 0; mask < 8; mask++ {
 		mask := mask
@@ -104,13 +115,13 @@ func resolvers() []rdef {
 				return clientip.NewRightmostNonPrivate(k, clientip.TrustLoopback(mask&1 != 0), clientip.TrustLinkLocal(mask&2 != 0), clientip.TrustPrivateNet(mask&4 != 0))
 			},
 			ref: func(es []ref.Entry) (netip.Addr, bool) { return ref.RightmostNonPrivate(es, rs) }})
-		for limit := 1; limit <= 3; limit++ {
+		for _, limit := range []uint{1, 2, 3, 1 << (bits.UintSize - 1), math.MaxUint} {
 			limit := limit
 			out = append(out, rdef{name: fmt.Sprintf("LeftmostNonPrivate(limit=%d,loopback=%v,linklocal=%v,private=%v)", limit, mask&1 != 0, mask&2 != 0, mask&4 != 0),
 				mk: func(k clientip.HeaderKey) (fox.ClientIPResolver, error) {
-					return clientip.NewLeftmostNonPrivate(k, uint(limit), clientip.ExcludeLoopback(mask&1 != 0), clientip.ExcludeLinkLocal(mask&2 != 0), clientip.ExcludePrivateNet(mask&4 != 0))
+					return clientip.NewLeftmostNonPrivate(k, limit, clientip.ExcludeLoopback(mask&1 != 0), clientip.ExcludeLinkLocal(mask&2 != 0), clientip.ExcludePrivateNet(mask&4 != 0))
 				},
-				ref: func(es []ref.Entry) (netip.Addr, bool) { return ref.LeftmostNonPrivate(es, rs, limit) }})
+				ref: func(es []ref.Entry) (netip.Addr, bool) { return ref.LeftmostNonPrivate(es, rs, satInt(limit)) }})
 		}
 	}
 	nets, err := clientip.AddressesAndRangesToIPNets(customTrusted...)
